@@ -4,55 +4,8 @@ import os
 from vlib.kani import Overlay
 from vlib.kaniprop import run_harnesses
 
-STUB_MODELS = r'''
-    #[cfg(feature = "std")]
-    mod stubs {
-        use core::arch::x86_64::*;
-        // pshufb: per 128-bit lane, r[i] = if idx[i] & 0x80 != 0 { 0 } else { table[idx[i] & 15] }
-        fn shuffle_lanes<const N: usize>(a: [u8; N], b: [u8; N]) -> [u8; N] {
-            let mut r = [0u8; N];
-            let mut i = 0;
-            while i < N {
-                let lane = i & !15;
-                r[i] = if b[i] & 0x80 != 0 { 0 } else { a[lane + (b[i] & 0x0F) as usize] };
-                i += 1;
-            }
-            r
-        }
-        pub fn mm_shuffle_epi8(a: __m128i, b: __m128i) -> __m128i {
-            unsafe { core::mem::transmute(shuffle_lanes::<16>(core::mem::transmute(a), core::mem::transmute(b))) }
-        }
-        pub fn mm256_shuffle_epi8(a: __m256i, b: __m256i) -> __m256i {
-            unsafe { core::mem::transmute(shuffle_lanes::<32>(core::mem::transmute(a), core::mem::transmute(b))) }
-        }
-        pub fn mm512_shuffle_epi8(a: __m512i, b: __m512i) -> __m512i {
-            unsafe { core::mem::transmute(shuffle_lanes::<64>(core::mem::transmute(a), core::mem::transmute(b))) }
-        }
-        // BEXTR with control word: start = control[7:0], len = control[15:8]
-        // vpmovdqu8 {k}{z}: byte i of the result = if bit i of k { a[i] } else { 0 }
-        pub fn mm512_maskz_mov_epi8(k: u64, a: __m512i) -> __m512i {
-            let a: [u8; 64] = unsafe { core::mem::transmute(a) };
-            let mut r = [0u8; 64];
-            let mut i = 0;
-            while i < 64 {
-                if (k >> i) & 1 == 1 {
-                    r[i] = a[i];
-                }
-                i += 1;
-            }
-            unsafe { core::mem::transmute(r) }
-        }
-        pub fn bextr2_u32(a: u32, control: u32) -> u32 {
-            let start = control & 0xFF;
-            let len = (control >> 8) & 0xFF;
-            if start >= 32 {
-                return 0;
-            }
-            let shifted = a >> start;
-            if len >= 32 { shifted } else { shifted & ((1u32 << len) - 1) }
-        }
-    }
-'''
+STUB_MODELS = open(os.path.join(os.path.dirname(os.path.dirname(os.path.abspath(__file__))), "harness", "stub_models.rs")).read()
+
 
 # kernel name -> (kind, cfg-std-only, wrapper body, stubs needed)
 KERNELS = {
